@@ -1,5 +1,6 @@
 """C06: step and hook commands get their exact arguments; exit status is faithful."""
 import os
+import signal
 import shutil
 import subprocess
 
@@ -153,7 +154,13 @@ def run(ctx):
             f.write(body)
         argv = [os.path.join(d, "robsd-exec"), "-m", mode, "-C", conf] + (["-x"] if trace else []) + [name]
         penv["PATH"] = fakebin + ":" + os.environ.get("PATH", "")
-        rc, out, err = core.run_cmd(argv, env=penv, timeout=30)
+        # the invoker's disposition of SIGCHLD is inherited: every seventh run starts the runner with it ignored
+        chld_ign = (t % 7 == 3)
+        rc, out, err = core.run_cmd(argv, env=penv, timeout=30,
+                                    preexec_fn=(lambda: signal.signal(signal.SIGCHLD, signal.SIG_IGN)) if chld_ign else None)
+        if chld_ign:
+            kinds["runner-started-with-SIGCHLD-ignored"] = kinds.get("runner-started-with-SIGCHLD-ignored", 0) + 1
+            body = "# robsd-exec started by a process that ignores SIGCHLD\n" + body
         rep = core.sanitizer_report(err)
         ran = read_argv(argv_out)
         if rep or not isinstance(rc, int) or rc < 0:
